@@ -1,11 +1,38 @@
-import TucanProofs.Lemmas.Sort
-import TucanModel.Serialize
-/-! # C01 — property theorems (see DESIGN.md §5) -/
+import TucanProofs.Lemmas.Pipeline
+import TucanProofs.Lemmas.OracleNonempty
+import TucanProofs.Examples
+/-!
+# C01 — the TUCAN string is invariant under atom/bond reordering of the input
+
+`Iso SameIdent f g g'` is "two descriptions of the same molecule": `g'` is `g` with atom `a` renamed
+`f a`, atoms and neighbours listed in any order (hence bonds listed in any order and orientation), with
+equal element, isotope mass and radical on corresponding atoms; bond records, charges, coordinates and
+any other attribute are unconstrained.  There is no connectivity or asymmetry hypothesis: symmetric
+molecules, several components and labels on part of an orbit are covered.
+`tucanOf O.order` is `serialize_molecule ∘ canonicalize_molecule` with igraph/bliss as the parameter `O`.
+-/
 namespace Tucan
 
-/-- The tuple list written by the serializer is a function of the *set* of bonds: any two listings of
-the same normalised bonds give the same sorted list. -/
-theorem C01_tuples_listing_independent {l₁ l₂ : List (Nat × Nat)} (h : l₁.Perm l₂) :
-    l₁.mergeSort leNN = l₂.mergeSort leNN := sortNN_perm_eq h
+/-- **C01.**  For every oracle meeting the bliss contract and every two descriptions of one molecule:
+byte-identical strings. -/
+theorem C01_string_invariant (O : CanonOracle) (f : Nat → Nat) (g g' : Graph) (s s' : Str)
+    (iso : Iso SameIdent f g g') (hchem : g.Chem)
+    (hw : g.WF) (hs : g.Simple) (hw' : g'.WF) (hs' : g'.Simple)
+    (h : tucanOf O.order g = .ok s) (h' : tucanOf O.order g' = .ok s') : s = s' :=
+  tucan_invariant O iso hchem hw hs hw' hs' h h'
+
+/-- the same statement for a single description listed differently (no renaming): the string does not
+depend on the iteration order of nodes, neighbours or bonds (the hash-seed / insertion-order quantifier) -/
+theorem C01_listing_independent (O : CanonOracle) (g g' : Graph) (s s' : Str)
+    (iso : Iso SameIdent id g g') (hchem : g.Chem)
+    (hw : g.WF) (hs : g.Simple) (hw' : g'.WF) (hs' : g'.Simple)
+    (h : tucanOf O.order g = .ok s) (h' : tucanOf O.order g' = .ok s') : s = s' :=
+  tucan_invariant O iso hchem hw hs hw' hs' h h'
+
+/-- the contract the theorem quantifies over is satisfiable -/
+theorem C01_oracle_contract_inhabited : Nonempty CanonOracle := CanonOracle.nonempty
+
+/-- non-vacuity: a concrete molecule meets the structural hypotheses -/
+example : exGraph.WF ∧ exGraph.Simple := ⟨exGraph_wf, exGraph_simple⟩
 
 end Tucan
